@@ -58,8 +58,42 @@ let hist (ops : op list) : string =
        | Some _, None -> out := "DIFF spec-raised" :: !out)) ops;
   String.concat " | " (List.rev !out)
 
-(* port <s|f> <bufsize> <bytes> <sched|_> <op,op,...>: character I/O on a buffered input port (C12/PortModel.v) *)
-let rd_s = function RChar c -> "c" ^ hex_of_z c | REof -> "eof" | RBad -> "bad"
+(* hist2 <op>;<op>;...  : the extended history (C12/HistModel2.v, xstep / xspec_step).  ops: those of hist, plus
+     J v,v,..|_ sep|_        push (string-join (list v ...) [sep])        (sep: a variable index)
+     F v c a|_ e|_           (string-fill! v c [a [e]])
+     Y tv at fv a|_ e|_      (string-copy! tv at fv [a [e]])               (fv = tv: the string onto itself)
+   -> same fields as hist, preceded by "P " when the step is outside the theorem's precondition xpreb *)
+let parse_xop (s : string) : xop =
+  let rng a e = if a = "_" then RNone else if e = "_" then RStart (neg_ok a) else RBoth (neg_ok a, neg_ok e) in
+  match String.split_on_char ' ' (String.trim s) with
+  | ["J"; vs; sep] -> XJoin (List.map nat_s (if vs = "_" then [] else String.split_on_char ',' vs), (if sep = "_" then None else Some (nat_s sep)))
+  | ["F"; v; c; a; e] -> XFill (nat_s v, z_of_hex c, rng a e)
+  | ["Y"; tv; at; fv; a; e] -> XCopyBang (nat_s tv, neg_ok at, nat_s fv, rng a e)
+  | _ -> XBase (parse_op s)
+
+let hist2 (ops : xop list) : string =
+  let st = ref { mheap = []; mvars = [] } and sp = ref [] and out = ref [] in
+  List.iter (fun o ->
+      let pre = if xpreb !sp o then "" else "P " in
+      let m = xstep !st o and s = xspec_step !sp o in
+      (match m, s with
+       | None, None -> out := (pre ^ "E") :: !out
+       | Some st', Some sp' ->
+          let v = (match o with XBase b -> changed_var b (List.length !sp) | XJoin _ -> List.length !sp
+                                | XFill (v, _, _) -> int_of_nat v | XCopyBang (tv, _, _, _) -> int_of_nat tv) in
+          st := st'; sp := sp';
+          let str = List.nth st'.mvars v and cs = List.nth sp' v in
+          let len = match string_length st'.mheap str with Ok n -> s_nat n | Err e -> "ERR" ^ err_s e in
+          out := (pre ^ Printf.sprintf "%x %s %s %s %s %s" v (string_of_zlist cs) (string_of_zlist (slice st'.mheap str)) len
+                    (s_nat str.soff) (s_nat str.sbytes)) :: !out
+       | None, Some _ -> out := (pre ^ "DIFF model-raised") :: !out
+       | Some _, None -> out := (pre ^ "DIFF spec-raised") :: !out)) ops;
+  String.concat " | " (List.rev !out)
+
+(* port <s|f|F> <bufsize> <bytes> <sched|_> <op,op,...>: character I/O on a buffered input port (C12/PortModel.v); F = FILE* port
+   (C12/FilePortModel.v), the first schedule entry is then the pushback capacity of the C library (none = unbounded, as glibc) *)
+(* RBad = the operation raised (invalid lead byte / sequence cut off by end of input): "E", as the Scheme harness prints *)
+let rd_s = function RChar c -> "c" ^ hex_of_z c | REof -> "eof" | RBad -> "E"
 let port_ops (p0 : iport) (ops : string list) : string =
   let p = ref p0 and out = ref [] in
   let emit x = out := x :: !out in
@@ -69,20 +103,45 @@ let port_ops (p0 : iport) (ops : string list) : string =
       else if o = "c" then emit "T"
       else if o = "u" then (let (b, p') = read_byte !p in p := p'; emit (if hex_of_z b = "-1" then "eof" else "u" ^ hex_of_z b))
       else if o = "l" then (let (r, p') = read_line (nat_of_int 8192) !p in p := p';
-                            emit (match r with None -> "eof" | Some l -> "l:" ^ string_of_zlist l))
+                            emit (match r with Ok None -> "eof" | Ok (Some l) -> "l:" ^ string_of_zlist l | Err _ -> "E"))
       else if o = "d" then begin
-          let acc = ref [] and go = ref true and fuel = ref 2000000 in
+          let acc = ref [] and go = ref true and bad = ref false and fuel = ref 2000000 in
           while !go && !fuel > 0 do
             decr fuel;
             let (r, p') = read_char !p in p := p';
-            (match r with RChar c -> acc := c :: !acc | REof -> go := false | RBad -> (go := false; acc := z_of_hex "-1" :: !acc))
+            (match r with RChar c -> acc := c :: !acc | REof -> go := false | RBad -> (go := false; bad := true))
           done;
-          emit ("d:" ^ string_of_zlist (List.rev !acc)) end
+          emit (if !bad then "E" else "d:" ^ string_of_zlist (List.rev !acc)) end
       else if String.length o > 1 && o.[0] = 's' then begin
           let k = int_of_string ("0x" ^ String.sub o 1 (String.length o - 1)) in
           if k = 0 then emit "s:_" else
             let (l, p') = read_string (nat_of_int k) !p in p := p';
-            emit (if l = [] then "eof" else "s:" ^ string_of_zlist l) end
+            emit (match l with Err _ -> "E" | Ok [] -> "eof" | Ok l -> "s:" ^ string_of_zlist l) end
+      else emit "?") ops;
+  String.concat " | " (List.rev !out)
+
+(* FILE* ports (C12/FilePortModel.v): getc / ungetc with a pushback capacity; read-line is fgets-based there and is not modelled *)
+let fport_ops (p0 : fport) (ops : string list) : string =
+  let p = ref p0 and out = ref [] in
+  let emit x = out := x :: !out in
+  List.iter (fun o ->
+      if o = "r" then (let (r, p') = fread_char !p in p := p'; emit (rd_s r))
+      else if o = "p" then (let (r, p') = fpeek_char !p in p := p'; emit (rd_s r))
+      else if o = "c" then emit "T"
+      else if o = "u" then (let (b, p') = fgetc !p in p := p'; emit (if hex_of_z b = "-1" then "eof" else "u" ^ hex_of_z b))
+      else if o = "d" then begin
+          let acc = ref [] and go = ref true and bad = ref false and fuel = ref 2000000 in
+          while !go && !fuel > 0 do
+            decr fuel;
+            let (r, p') = fread_char !p in p := p';
+            (match r with RChar c -> acc := c :: !acc | REof -> go := false | RBad -> (go := false; bad := true))
+          done;
+          emit (if !bad then "E" else "d:" ^ string_of_zlist (List.rev !acc)) end
+      else if String.length o > 1 && o.[0] = 's' then begin
+          let k = int_of_string ("0x" ^ String.sub o 1 (String.length o - 1)) in
+          if k = 0 then emit "s:_" else
+            let (l, p') = fread_string (nat_of_int k) !p in p := p';
+            emit (match l with Err _ -> "E" | Ok [] -> "eof" | Ok l -> "s:" ^ string_of_zlist l) end
       else emit "?") ops;
   String.concat " | " (List.rev !out)
 
@@ -113,6 +172,19 @@ let sobs h s =
      let k = int_of_nat n in
      let cs = List.init k (fun i -> match string_ref h s (z_of_hex (Printf.sprintf "%x" i)) with Ok c -> c | Err _ -> z_of_hex "-1") in
      Printf.sprintf "%s %s %x" (string_of_zlist cs) (string_of_zlist (slice h s)) k
+(* smapn <bufsize> <cs>;<cs>;...  : n-ary string-map with f = max of the arguments (C12/MapModel.v) over strings built as slices
+   at offset 2 of stores with garbage around -> <code points> <bytes> <length> (the result bytes re-read as a string) | E *)
+let smapn bufsize (css : string list) : string =
+  let (h, ss) = List.fold_left (fun (h, acc) cs ->
+                    let b = List.concat_map encode (zlist_of_string cs) in
+                    let h' = h @ [[z_of_hex "c8"; z_of_hex "82"] @ b @ [z_of_hex "bf"; z_of_hex "42"]] in
+                    (h', acc @ [{ sbytes = nat_of_int (List.length h); soff = S (S O); ssize = nat_of_int (List.length b); scow = false }]))
+                  ([], []) css in
+  let zmax l = List.fold_left (fun a b -> if Stdlib.compare (int_of_string ("0x" ^ hex_of_z a)) (int_of_string ("0x" ^ hex_of_z b)) >= 0 then a else b) (List.hd l) l in
+  match string_map_n (nat_s bufsize) h ss zmax with
+  | Err _ -> "E"
+  | Ok bytes -> sobs [bytes @ [z_of_hex "0"]] { sbytes = O; soff = O; ssize = nat_of_int (List.length bytes); scow = false }
+
 let out_after bufsize pre (f : oport -> oport res) =
   match write_bytes (open_output_string (nat_s bufsize)) (zlist_of_string pre) with
   | Err _ -> "E"
@@ -149,6 +221,8 @@ let handle = function
      (match string_map (nat_s bufsize) h s (fun c -> Z.add c dz) with Ok b -> string_of_zlist b | Err e -> "ERR " ^ err_s e)
   | ["port"; kind; bufsize; bytes; sched; ops] ->
      let b = zlist_of_string bytes and sc = List.map (fun z -> nat_of_int (int_of_string ("0x" ^ z))) (if sched = "_" then [] else String.split_on_char ',' sched) in
+     if kind = "F" then fport_ops (open_file_port (nat_of_int (match sc with [] -> 1000 | c :: _ -> int_of_nat c)) b) (String.split_on_char ',' ops)
+     else
      let p = if kind = "s" then open_string_port b else open_fd_port (nat_s bufsize) b sc in
      port_ops p (String.split_on_char ',' ops)
   | ["wport"; bufsize; cs] -> wport bufsize cs
@@ -196,6 +270,23 @@ let handle = function
   | ["mk"; n; c] ->
      let (h', s') = make_string [] (nat_s n) (z_of_hex c) in
      Printf.sprintf "OK %s %s" (s_nat s'.ssize) (store_of h' (int_of_nat s'.sbytes))
+  | "hist2" :: rest ->
+     let txt = String.concat " " rest in
+     hist2 (List.map parse_xop (List.filter (fun x -> String.trim x <> "") (String.split_on_char ';' txt)))
+  (* ci <cs1> <cs2>: case-insensitive comparison (C12/CiModel.v) -> "<=?><<?><>?> <sign of the core string-cmp ci> <foldcase of cs1>" *)
+  | ["ci"; a; b] ->
+     let (h1, s1) = shared_str [] (zlist_of_string a) in
+     let (h2, s2) = shared_str h1 (zlist_of_string b) in
+     let sgn z = let t = hex_of_z z in if t = "0" then 0 else if t.[0] = '-' then -1 else 1 in
+     let tf x = if x then "T" else "F" in
+     let folded = string_foldcase_cps (zlist_of_string a) in
+     (match string_ci_cmp_full (nat_s "3") h2 s1 s2, string_foldcase (nat_s "5") h2 s1 with
+      | Ok z, Ok bytes when bytes = List.concat_map encode folded ->
+         Printf.sprintf "%s%s%s %d %s" (tf (sgn z = 0)) (tf (sgn z < 0)) (tf (sgn z > 0)) (sgn (string_cmp_ci h2 s1 s2)) (string_of_zlist folded)
+      | Ok _, Ok _ -> "DIFF string_foldcase bytes vs string_foldcase_cps"
+      | _, _ -> "E")
+  | ["fold"; c] -> string_of_zlist (fold_char (z_of_hex c)) ^ " " ^ hex_of_z (char_foldcase (z_of_hex c))
+  | ["smapn"; bufsize; css] -> smapn bufsize (String.split_on_char ';' css)
   | "hist" :: rest ->
      let txt = String.concat " " rest in
      hist (List.map parse_op (List.filter (fun x -> String.trim x <> "") (String.split_on_char ';' txt)))
